@@ -46,6 +46,7 @@ func (te *tableEngine) tableGameOpen() error {
 
 			for i := 0; i < retry; i++ {
 				time.Sleep(time.Second * 3)
+				te.verifHook("open.retry")
 
 				// 已經開始新的一手遊戲，不做任何事
 				gameStartingStatuses := []TableStateStatus{
